@@ -61,6 +61,11 @@ func (b *message) ReadUint32() (r uint32) {
 func (b *message) ReadString() (r string) {
 	end := b.offset
 	maximum := uint32(len(b.data))
+	if end >= maximum {
+		// nothing left (the previous string was not terminated)
+		b.offset = maximum
+		return ""
+	}
 	for ; end != maximum && b.data[end] != 0; end++ {
 	}
 	r = string(b.data[b.offset:end])
@@ -98,8 +103,13 @@ func (m *MatchPostgres) Match(cx *layer4.Connection) (bool, error) {
 		return false, err
 	}
 
-	// Get actual message length
-	data := make([]byte, binary.BigEndian.Uint32(head)-initMessageSizeLength)
+	// Get actual message length: it includes the length field itself and a 4-byte
+	// code, and a message bigger than the matching buffer can never be read in full
+	length := binary.BigEndian.Uint32(head)
+	if length < initMessageSizeLength+4 || length > layer4.MaxMatchingBytes {
+		return false, nil
+	}
+	data := make([]byte, length-initMessageSizeLength)
 	if _, err := io.ReadFull(cx, data); err != nil {
 		return false, err
 	}
